@@ -114,7 +114,33 @@ func runC10(s *core.Sim, tier string) RunInfo {
 		ncases = 30
 	}
 	for c := 0; c < ncases && !s.Failed(); c++ {
-		kind := core.Pick(s.Tape, "req-kind", []string{"range", "range", "range", "range", "hash", "garbage", "slow-store", "half-frame"})
+		kind := core.Pick(s.Tape, "req-kind", []string{"range", "range", "range", "range", "hash", "garbage", "slow-store", "half-frame", "dirty-then-short", "two-hashes"})
+		if kind == "two-hashes" {
+			// two hash requests in flight at once against a store that takes its time: each is
+			// answered with the header of its own hash (nothing of one request leaks into the other)
+			ha := w.Ch.At(tail + uint64(s.Tape.Draw("ha", int(H-tail+1))))
+			hb := w.Ch.At(tail + uint64(s.Tape.Draw("hb", int(H-tail+1))))
+			d := time.Duration(1+s.Tape.Draw("get-ms", 200)) * time.Millisecond
+			xs.Rec.Delay = func(call string) time.Duration { return d }
+			cases = append(cases, fmt.Sprintf("two hash requests at once: %d and %d", ha.Height(), hb.Height()))
+			var ra, rb rawResp
+			ta := s.Go("request-a", func() {
+				ra = w.rawRequest(1, frameReq(&p2p_pb.HeaderRequest{Data: &p2p_pb.HeaderRequest_Hash{Hash: ha.Hash()}, Amount: 1}), true, maxWait)
+			})
+			tb := s.Go("request-b", func() {
+				rb = w.rawRequest(1, frameReq(&p2p_pb.HeaderRequest{Data: &p2p_pb.HeaderRequest_Hash{Hash: hb.Hash()}, Amount: 1}), true, maxWait)
+			})
+			stuck := s.Settle(maxWait+5*time.Second, ta, tb)
+			xs.Rec.Delay = nil
+			if len(stuck) > 0 || ra.timedOut || rb.timedOut {
+				s.Violate("server-hang", map[string]string{"req": kind}, "two concurrent hash requests (store tail=%d head=%d): the server did not finish within %v", tail, H, maxWait)
+				break
+			}
+			w.checkHashReply(s, ra, ha.Hash(), tail, H, fmt.Sprintf("hash of %d (concurrent with %d)", ha.Height(), hb.Height()))
+			w.checkHashReply(s, rb, hb.Hash(), tail, H, fmt.Sprintf("hash of %d (concurrent with %d)", hb.Height(), ha.Height()))
+			s.Probe("two-hash-requests-in-flight")
+			continue
+		}
 		var payload []byte
 		closeWrite := true
 		var origin, amount uint64
@@ -145,6 +171,30 @@ func runC10(s *core.Sim, tier string) RunInfo {
 			}
 			payload = frameReq(&p2p_pb.HeaderRequest{Data: &p2p_pb.HeaderRequest_Hash{Hash: hash}, Amount: uint64(s.Tape.Draw("hash-amount", 3))})
 			desc = fmt.Sprintf("hash %x", hash)
+		case "dirty-then-short":
+			// a request that starts like a valid one and ends in an invalid byte is rejected; the
+			// request right after it carries less than a full one (no amount, or nothing at all)
+			// and is judged on its own - nothing of the rejected request's fields applies to it
+			pre := &p2p_pb.HeaderRequest{Data: &p2p_pb.HeaderRequest_Origin{Origin: core.Pick(s.Tape, "dirty-origin", origins[3:9])}, Amount: uint64(1 + s.Tape.Draw("dirty-amount", 8))}
+			body, _ := pre.Marshal()
+			body = append(body, 0x0c) // field 1, wire type 4 (end group): invalid here
+			dirty := append([]byte{byte(len(body))}, body...)
+			_, fin := s.Do("dirty-request", maxWait+5*time.Second, func() { _ = w.rawRequest(1, dirty, true, maxWait) })
+			if !fin {
+				s.Violate("server-hang", map[string]string{"req": kind}, "malformed request: the server did not finish within %v", maxWait)
+			}
+			s.Probe("short-request-after-rejected-one")
+			if s.Tape.Coin("short-is-empty", 1, 2) {
+				payload = frameReq(&p2p_pb.HeaderRequest{})
+				desc = "empty request after a rejected one"
+				kind = "empty"
+			} else {
+				origin = core.Pick(s.Tape, "origin", origins[3:9])
+				amount = 0
+				payload = frameReq(&p2p_pb.HeaderRequest{Data: &p2p_pb.HeaderRequest_Origin{Origin: origin}})
+				desc = fmt.Sprintf("range origin=%d amount=0 after a rejected request", origin)
+				kind = "range"
+			}
 		case "garbage":
 			payload = garbage(s, 1+s.Tape.Draw("glen", 100))
 		case "stalled":
